@@ -47,7 +47,7 @@ theorem unwrapStep_shape (env : Env) (s : St) (q : QE) : StepShape env s q (unwr
     exact Or.inl ⟨⟨.frameObj f, q.depth⟩, [], (by intro i h; cases h), (by simp)⟩
   · rename_i i hq
     split
-    · exact Or.inl ⟨⟨.frameObj ⟨i, wrapOrigin env q.origin⟩, q.depth⟩, [], (by intro i h; cases h), (by simp)⟩
+    · exact Or.inl ⟨⟨.frameObj ⟨i, wrapOrigin env i q.origin⟩, q.depth⟩, [], (by intro i h; cases h), (by simp)⟩
     · rename_i hf
       apply handleUnwrap_shape
       · intro j hj; rw [hq] at hj; cases hj; simpa using hf
@@ -230,7 +230,7 @@ theorem unwrapPhase_terminates (env : Env) (hlin : Linear env) (m : Nat) (s : St
 
 def f9Env : Env :=
   { isFrame := fun _ => false, unwrap := fun _ => .seq [some 0, some 0], elabFn := fun _ _ => .none, elabHide := fun _ => false,
-    weakrefable := fun _ => true, genLike := fun _ => false, withContexts := false, ctxErrs := fun _ => [] }
+    weakrefable := fun _ => true, genLike := fun _ => false, frameOf := fun _ => none, withContexts := false, ctxErrs := fun _ => [] }
 
 def F9Inv (s : St) : Prop := s.toUnwrap.length ≥ s.loops + 1 ∧ ∀ q ∈ s.toUnwrap, q.cur = .item 0
 
